@@ -395,6 +395,10 @@ def run_check(mod, tier, seed, jobs=None, only_units=None):
     }
     os.makedirs(os.path.join(common.VERIF_DIR, 'evidence'), exist_ok=True)
     evp = os.path.join(common.VERIF_DIR, 'evidence', check_id + '.json')
+    if os.environ.get('VERIF_REPO') and common.REPO != '/repo':
+        # a run against a scratch copy (seeded change) must not replace the evidence
+        # of the repository itself
+        evp = os.path.join(outdir, 'evidence-scratch-copy.json')
     with open(evp + '.tmp', 'w') as f:
         json.dump(ev, f, indent=1, sort_keys=True, default=repr)
     os.replace(evp + '.tmp', evp)
